@@ -1,6 +1,7 @@
 package main
 
 import (
+	"strings"
 	"fmt"
 	"go/token"
 	"go/types"
@@ -125,7 +126,14 @@ func (x *Exec) mapRead(st *State, h *Heap, m MapV, k Value) Value {
 	has := x.mapHas(h, m, k)
 	kt := keyTerm(k)
 	v := unflatten(m.Val, "", func(l leaf) *Term {
-		vf, _ := m.valFam(h, l)
+		vf, vn := m.valFam(h, l)
+		if strings.HasSuffix(l.path, "$r") || strings.HasSuffix(l.path, "$p") {
+			// entry-heap well-formedness for map values: every pointer / slice region stored in a map at function
+			// entry was allocated at entry (quantified over maps and keys)
+			rv, kv := Sym("wf.r."+vn, SInt), Sym("wf.k."+vn, keySort(m.Key))
+			e := Select(Select(Sym(vn+"@0", vf.Sort), rv), kv)
+			st.assume(Forall([]*Term{rv, kv}, Select(Sym("alloc@0", SArrB), e), e))
+		}
 		return Ite(has, Select(Select(vf, m.Ref), kt), zeroOfSort(l.sort))
 	})
 	return v
